@@ -34,7 +34,7 @@ PLAN = {
     "thorough": {"shards": 16, "shard_timeout": 3600, "case_timeout": 120, "inproc": 100000, "strace": 200, "failpoints": 5000, "sigkill": 500, "max_case_timeouts": 8},
 }
 THRESHOLDS = {
-    "quick": {"disk_reads_after_register": 3000, "rows_compared": 3000, "multi_objective_rows": 800, "extra_field_cells": 1500, "simplegp_runs": 10, "strace_runs": 6, "strace_writes": 100, "crash_files_checked": 40, "set:kill_points": 15, "only_best_runs": 60, "set:special_cells_seen": 12, "simplegp_ambiguous_runs": 10, "rows_of_lookalike_programs": 20, "field_configuration:empty+extra": 15, "field_configuration:explicit+extra": 15, "field_configuration:default+noextra": 15},
+    "quick": {"disk_reads_after_register": 3000, "rows_compared": 3000, "multi_objective_rows": 800, "extra_field_cells": 1500, "simplegp_runs": 10, "strace_runs": 6, "strace_writes": 100, "crash_files_checked": 40, "set:kill_points": 15, "only_best_runs": 60, "set:special_cells_seen": 12, "simplegp_ambiguous_runs": 10, "rows_of_lookalike_programs": 20, "field_configuration:empty+extra": 15, "field_configuration:explicit+extra": 15, "field_configuration:default+noextra": 15, "field_configuration:default+override": 10, "field_configuration:explicit+override": 10, "recorders_sharing_a_fields_dict": 15},
     "thorough": {"disk_reads_after_register": 80000, "crash_files_checked": 650, "set:kill_points": 60, "strace_runs": 35},
 }
 
@@ -46,7 +46,7 @@ def gen_cases(tier, seed):
     rng = pyrandom.Random(f"c20-{seed}")
     plan = PLAN[tier]
     for i in range(plan["inproc"]):
-        yield {"kind": "inproc", "nobj": rng.choice([1, 1, 2, 3, 4]), "fields": rng.choice(["default", "default", "explicit", "extra", "extra", "explicit+extra", "empty+extra", "default+noextra"]), "only_best": rng.random() < 0.4, "n": rng.randint(1, 25), "via": "simplegp" if i % 12 == 0 else "direct", "seed": rng.randrange(10**6)}
+        yield {"kind": "inproc", "nobj": rng.choice([1, 1, 2, 3, 4]), "fields": rng.choice(["default", "default", "explicit", "extra", "extra", "explicit+extra", "empty+extra", "default+noextra", "default+override", "explicit+override", "explicit+extra+shared", "explicit+none+shared"]), "only_best": rng.random() < 0.4, "n": rng.randint(1, 25), "via": "simplegp" if i % 12 == 0 else "direct", "seed": rng.randrange(10**6)}
     for i in range(plan["strace"]):
         yield {"kind": "strace", "nobj": rng.choice([1, 2, 3]), "only_best": i % 3 == 0, "alg": rng.choice(["rs", "gp"]), "n": rng.randint(15, 40), "seed": rng.randrange(10**6)}
     for i in range(plan["failpoints"]):
@@ -132,9 +132,16 @@ def run_inproc(case, rec):
         model_fields = [("A", lambda i: evo.text(i.get_phenotype())), ("B", lambda i: table[id(i.get_phenotype())][-1])]
     elif base_cfg == "default":
         model_fields = [("Execution Time", None), ("Phenotype", lambda i: str(i.get_phenotype()))] + [(f"Fitness{k}", (lambda i, k=k: table[id(i.get_phenotype())][k])) for k in range(nobj)]
+    shared = extra_cfg.endswith("+shared")
+    extra_cfg = extra_cfg.replace("+shared", "")
     if extra_cfg == "extra":
         model_fields += [("Size", lambda i: len(evo.text(i.get_phenotype()))), ("Tag", lambda i: "x," + evo.text(i.get_phenotype())[:6] + '"q'), ("Raw", nasty)]
-    rec.count(f"field_configuration:{base_cfg}+{extra_cfg or 'none'}")
+    if extra_cfg == "override":
+        # an extra field named like an existing column takes that column over (one column per configured NAME)
+        taken = "Phenotype" if base_cfg == "default" else "B"
+        extra = {taken: lambda t, i, p: "over:" + evo.text(i.get_phenotype())[:5], "Size": lambda t, i, p: len(evo.text(i.get_phenotype()))}
+        model_fields = [(n, (lambda i: "over:" + evo.text(i.get_phenotype())[:5]) if n == taken else fn) for n, fn in model_fields] + [("Size", lambda i: len(evo.text(i.get_phenotype())))]
+    rec.count(f"field_configuration:{base_cfg}+{extra_cfg or 'none'}{'+shared' if shared else ''}")
     wit = {"objectives": nobj, "fields": case["fields"], "only_best": case["only_best"], "registrations": case["n"]}
     state = {"expected": [], "bad": False}
 
@@ -184,8 +191,13 @@ def run_inproc(case, rec):
                     return
 
     try:
-        r = Probe(path, prob, fields=fields, extra_fields=extra if extra_cfg == "extra" else ({} if extra_cfg == "noextra" else None), only_record_best_individuals=case["only_best"])
+        r = Probe(path, prob, fields=fields, extra_fields=extra if extra_cfg in ("extra", "override") else ({} if extra_cfg == "noextra" else None), only_record_best_individuals=case["only_best"])
         check_disk("after-construction")
+        if shared and fields is not None:
+            # a second recorder configured from the SAME fields dict, with another extra column: each log has its own columns
+            other = CSVSearchRecorder(path + ".other", prob, fields=fields, extra_fields={"OnlyInTheOther": lambda t, i, p: "o"}, only_record_best_individuals=False)
+            other.csv_file.close()
+            rec.count("recorders_sharing_a_fields_dict")
         tr = (SingleObjectiveProgressTracker if nobj == 1 else MultiObjectiveProgressTracker)(prob, SequentialEvaluator(), recorders=[r])
         for ind in inds:
             tr.evaluate([ind])
